@@ -78,7 +78,7 @@ inductive Imol where
   | chem (ph row : Nat)
   /-- `MaterialIndexer`: `_phases`, `data` (`SparseArray` id) -/
   | mat (phases : List Ph) (arr : Nat)
-  deriving Inhabited
+  deriving Inhabited, DecidableEq, Repr
 
 /-- The slots of a stream object. -/
 structure Stream where
